@@ -48,6 +48,8 @@ def episodes(prop, tier, seed):
                        + g.reject_episodes(seed, 120 if q else 1000)
                        + g.short_build_episodes(seed, 60 if q else 600)
                        + g.large_episodes(seed, [5000, 9000] if q else [5000, 9000, 20000, 70000], SEQS), "verif")
+        # "concurrent set": the concurrent builder filled by real threads equals the sorted sequence
+        out["conc"] = (g.conc_episodes(seed + 2, 200 if q else 2500, maxn=1500 if q else 20000), "verif")
         if not q:
             out["rand-release"] = (g.recipe_episodes(seed + 1, ["plain"] + SEQS, cap=8)
                                    + g.random_episodes(seed + 1, 2000, ["plain"] + SEQS)
